@@ -18,6 +18,7 @@ struct Tab {
 	uint32_t n_cpuid, n_xgetbv, xgetbv_without_osxsave;
 };
 extern "C" Tab *verif_cpu_tab_ptr();
+extern "C" void verif_call_with_regs(void (*fn)(), const uint64_t in[6], uint64_t out[6]);
 
 struct Slot {
 	const char *name;
